@@ -1282,6 +1282,36 @@ def rule_access_kind(model):
                     r.finding(fi.where, wrong_f[0], f'without the mapping '
                               f'option the element is subscripted with {k}',
                               node=wrong_f[0], ctx=fi)
+    # ... and the option reaches the variables object in both renderers:
+    # data['mapping'] is set from the tag's mapping attribute
+    mi = model.inlined_view()
+    for q in ('InClass.renderwb', 'InClass.renderwob'):
+        fi = mi.func('DT_In', q)
+        stores = [x for x in own_nodes(fi.node) if isinstance(x, ast.Assign)
+                  and any(isinstance(t, ast.Subscript) and isinstance(
+                      t.slice, ast.Constant) and t.slice.value == 'mapping'
+                      for t in x.targets)]
+
+        def from_option(v, depth=0):
+            if norm(v) == 'self.mapping':
+                return True
+            if isinstance(v, ast.Name) and depth < 3:
+                ds = mi.local_defs(fi, v.id)
+                return bool(ds) and all(isinstance(d, ast.AST) and
+                                        from_option(d, depth + 1)
+                                        for d in ds)
+            return False
+        ok = bool(stores) and all(from_option(x.value) for x in stores)
+        r.instance(fi.where, stores[0] if stores else "data['mapping']",
+                   'from the mapping option' if ok else 'NOT THE OPTION')
+        if not ok:
+            r.finding(fi.where, stores[0] if stores else
+                      "data['mapping'] = ...", 'the variables object of '
+                      'this renderer is not told the mapping option '
+                      "(data['mapping'] is missing or not the tag's "
+                      'mapping attribute): sequence-var-x, first-x and the '
+                      'statistics read attributes from mapping elements',
+                      node=stores[0] if stores else fi.node, ctx=fi)
     if n < 2:
         raise AnalysisError(f'C10.R11: only {n} mapping / attribute access '
                             'twins found')
